@@ -150,6 +150,13 @@ def run_case(w, c):
                 a = Fraction(c['an'], c['ad'])
                 m = w.Money(mk_amount([c['an'], c['ad']], c.get('rep', 'dec')), w.cur[c['cur']])
                 ev['amt'] = qjson(m.amount)       # the STORED operand
+                cvr = None
+                if c.get('conv'):
+                    # a registered converter that knows every pair must not change what money (*|/) rate means
+                    from quantity.money import MoneyConverter
+                    cvr = MoneyConverter(w.cur['EUR'])
+                    cvr.update(None, [(w.cur[x], 2, 1) for x in w.cur if x != 'EUR'])
+                    w.Money.register_converter(cvr)
                 try:
                     if c['form'] == 'mul':
                         res = m * r
@@ -171,12 +178,30 @@ def run_case(w, c):
                     ev['obs'] = dict(st='err', mro=[x.__name__ for x in type(exc).__mro__], t='', cur='', R=[], ongrid=False)
             finally:
                 decimalfp.set_dflt_rounding_mode(ROUNDING.ROUND_HALF_EVEN)
+                if c.get('conv'):
+                    try:
+                        w.Money.remove_converter(cvr)
+                    except Exception:
+                        pass
         elif op == 'mix':
             import operator
             f = c['f']
             a = w.Money(mk_amount(c['a'], 'dec'), w.cur[c['c1']])
             b = w.Money(mk_amount(c['b'], 'frac' if c.get('k', 0) % 2 else 'dec'), w.cur[c['c2']])
             o = dict(st='err', mro=[], t='', cur='', ongrid=False, exact=False, b=False)
+            if c.get('pre') in ('block', 'block_exc'):
+                # a converter that knows the pair was active in a with-block that has been left (normally / by an
+                # exception): no converter is active any more
+                from quantity.money import MoneyConverter
+                cv = MoneyConverter(w.cur[c['c1']])
+                if c['c1'] != c['c2']:
+                    cv.update(None, [(w.cur[c['c2']], 2, 1)])
+                try:
+                    with cv:
+                        if c['pre'] == 'block_exc':
+                            raise KeyError('leave the block by an exception')
+                except KeyError:
+                    pass
             try:
                 if f == 'convert':
                     res = a.convert(w.cur[c['c2']])
@@ -275,7 +300,7 @@ def run_case(w, c):
                     cur = M.new_unit(sym, 'user currency', c['minor'])
                 else:
                     cur = M.new_unit(sym, 'user currency', None, mk_value(c['sfv']))
-                o = dict(st='err', ongrid=False, R=[], neg=False)
+                o = dict(st='err', ongrid=False, R=[], neg=False, text_roundtrip=False)
                 try:
                     if c['how'] == 'str':
                         m = M('%s %s' % (c['text'], sym))
@@ -285,8 +310,18 @@ def run_case(w, c):
                     else:
                         m = M(mk_value(c['amtv']), cur)
                     k = Fraction(m.amount) / Fraction(cur.smallest_fraction)
+                    # text form (C18): format() without a specification equals str(), and the text parses back to the
+                    # identical amount of money through the generic and the typed factory
+                    from quantity import Quantity as _Q
+                    txt = str(m)
+                    try:
+                        back = _Q(txt), M(txt)
+                        rt = (format(m) == txt and all(type(b) is type(m) and b.unit is m.unit and b.amount == m.amount
+                                                       for b in back))
+                    except Exception:
+                        rt = False
                     o.update(st='ok', ongrid=(k.denominator == 1 and not isinstance(m.amount, float)),
-                             R=limbs(abs(int(k))), neg=k < 0)
+                             R=limbs(abs(int(k))), neg=k < 0, text_roundtrip=bool(rt))
                 except Exception as exc:
                     o['exc'] = type(exc).__name__
                 ev['obs'] = o
